@@ -1030,6 +1030,30 @@ func (v *Verifier) binop(fr *Frame, st *State, op token.Token, l, r Val, pos tok
 		case token.GEQ:
 			return Scalar{c.ILe(rs.T, ls.T), b}
 		case token.AND, token.OR, token.XOR, token.AND_NOT:
+			if ls.T.IsConst() && rs.T.IsConst() && ls.T.Val.Sign() >= 0 && rs.T.Val.Sign() >= 0 {
+				r := new(big.Int)
+				switch op {
+				case token.AND:
+					r.And(ls.T.Val, rs.T.Val)
+				case token.OR:
+					r.Or(ls.T.Val, rs.T.Val)
+				case token.XOR:
+					r.Xor(ls.T.Val, rs.T.Val)
+				default:
+					r.AndNot(ls.T.Val, rs.T.Val)
+				}
+				return Scalar{c.Int(r), ls.Typ}
+			}
+			// x & (2^k - 1) for non-negative x is x mod 2^k
+			if op == token.AND && rs.T.IsConst() {
+				m := new(big.Int).Add(rs.T.Val, big.NewInt(1))
+				if m.Sign() > 0 && new(big.Int).And(m, rs.T.Val).Sign() == 0 {
+					if !fr.inSpec {
+						v.oblige(fr, st, "masknonneg", pos, c.ILe(c.Inti(0), ls.T), "bit mask of a possibly negative int (hybrid mode models x & (2^k-1) as x mod 2^k)")
+					}
+					return Scalar{c.IMod(ls.T, c.Int(m)), ls.Typ}
+				}
+			}
 			name := map[token.Token]string{token.AND: "math$and", token.OR: "math$or", token.XOR: "math$xor", token.AND_NOT: "math$andnot"}[op]
 			return Scalar{c.App(name, IntSort, ls.T, rs.T), ls.Typ}
 		}
